@@ -4,10 +4,14 @@
 #        tools/mut.sh --sed 's/a/b/' sopht/x.py C03      (quick one-line mutation)
 set -u
 HERE="$(cd "$(dirname "${BASH_SOURCE[0]}")/.." && pwd)"
-SCR="$(mktemp -d "${RV_TMP:-$HOME/.rv-tmp}/mut-XXXXXX")"
-mkdir -p "$SCR"
-trap 'rm -rf "$SCR"' EXIT
-rsync -a --exclude .git --exclude __pycache__ /repo/ "$SCR/repo/"
+# fixed slots keep path + mtimes of unmodified files stable => numba's disk cache is reused between runs
+T="${RV_TMP:-$HOME/.rv-tmp}"; mkdir -p "$T"; SCR=""
+for k in 0 1 2 3 4 5 6 7 8 9 10 11; do
+  mkdir -p "$T/slot-$k"; if mkdir "$T/slot-$k/LOCK" 2>/dev/null; then SCR="$T/slot-$k"; break; fi
+done
+if [ -z "$SCR" ]; then SCR="$(mktemp -d "$T/mut-XXXXXX")"; trap 'rm -rf "$SCR"' EXIT
+else trap 'rsync -a --delete --exclude .git --exclude __pycache__ /repo/ "$SCR/repo/"; rmdir "$SCR/LOCK"' EXIT; fi
+rsync -a --delete --exclude .git --exclude __pycache__ /repo/ "$SCR/repo/"
 if [ "$1" = "--sed" ]; then
   sed -i "$2" "$SCR/repo/$3" || exit 3
   if diff -q "/repo/$3" "$SCR/repo/$3" >/dev/null; then echo "MUTATION DID NOT CHANGE $3"; exit 3; fi
